@@ -70,7 +70,7 @@ CHECKS = {
     },
     'C17': {
         'text': 'find_span_func linear vs binary, evaluator default vs alternative, normalize_kv True vs False under a SYMBOLIC affine knot range (alpha>0, beta), all give identical points/derivatives (scaled by alpha^-k) for all parameters/nets/weights; the lru_cache maxsize expressions extracted from the current source are checked by CrossHair for every decimal GEOMDL_CACHE_SIZE (or unset), plus symbolic C04/C06/C16 runs in subprocesses under {unset,1,16,1024}.',
-        'note': COMMON_NOTE + 'num_procs (multiprocessing schedules) is NOT covered by this technique. CrossHair verdict trusted for the str->int conversion; Bounds: curves p<=3, surfaces degrees<=2 (3,2), one volume.',
+        'note': COMMON_NOTE + 'num_procs in {2,4,8} is covered through a worker-pool MODEL (order-preserving map over copied arguments/results); real scheduling and worker-private state are not. CrossHair verdict trusted for the str->int conversion; Bounds: curves p<=3, surfaces degrees<=2 (3,2), one volume.',
         'technique': 'bounded symbolic execution + z3 (pairs of configurations); CrossHair symbolic execution of the AST-extracted lru_cache maxsize expressions over a symbolic environment string',
     },
     'C18': {
@@ -83,7 +83,7 @@ CHECKS = {
     },
     'C20': {
         'text': 'ray.intersect: 2-D symbolic rays (status and Cramer parameters), 3-D constructed intersecting / skew / parallel pairs; is_left == determinant; wn_poly == orientation-sign oracle on fully symbolic triangles and == even-odd crossing oracle for symbolic query points on concrete grid polygons; convex_hull (ccw, all points left of every edge); voxel membership with the documented padding, voxel grids cover the box, voxelize fills exactly the hit cells; find_ctrlpts returns exactly the points with non-vanishing basis functions.',
-        'note': COMMON_NOTE + 'Fully symbolic polygons only for triangles; voxel grids 2..3 (4); num_procs>1 not covered.',
+        'note': COMMON_NOTE + 'Fully symbolic polygons only for triangles; voxel grids 2..3 (4); num_procs>1 through the worker-pool model only.',
     },
 }
 
